@@ -34,10 +34,14 @@ func IsSafeTrustedResourceURLPrefix(prefix string) bool {
 	return safeTrustedResourceURLPrefixPattern.MatchString(prefix)
 }
 
-var safeTrustedResourceURLPrefixPattern = regexp.MustCompile(`(?i)^(?:` +
-	`(?:https:)?//[0-9a-z.:\[\]-]+/|` +
-	`/[^/\\]|` +
-	`about:blank#)`)
+// The letters are spelled out in both cases: with the flag (?i) the pattern would also match
+// U+017F and U+212A, which Unicode folds to "s" and "k". After the "/" of a path neither a
+// character that makes it a scheme-relative URL is allowed nor one that URL parsers remove
+// first (tab, line feed, carriage return).
+var safeTrustedResourceURLPrefixPattern = regexp.MustCompile(`^(?:` +
+	`(?:[hH][tT][tT][pP][sS]:)?//[0-9a-zA-Z.:\[\]-]+/|` +
+	`/[^/\\\t\n\r]|` +
+	`[aA][bB][oO][uU][tT]:[bB][lL][aA][nN][kK]#)`)
 
 // URLContainsDoubleDotSegment returns whether the given URL or URL substring
 // contains the double dot-segment ".." (RFC3986 3.3) in its percent-encoded or
